@@ -135,7 +135,65 @@ Definition kv_del (k : string) (st : content) : content :=
 Definition kv_del_prefix (p : string) (st : content) : content :=
   filter (fun '(k', _) => negb (String.prefix p k')) st.
 
+(** keys generated from an index: stem ++ five decimal digits (big prefixes are written
+    by index ranges so that cases stay small) *)
+Definition dchar (d : nat) : ascii :=
+  match d with
+  | 0 => "0" | 1 => "1" | 2 => "2" | 3 => "3" | 4 => "4"
+  | 5 => "5" | 6 => "6" | 7 => "7" | 8 => "8" | _ => "9"
+  end%char.
+(** decimal digits, least significant first *)
+Definition digits5 (i : nat) : list nat :=
+  let n := N.of_nat i in
+  map (fun p => N.to_nat (N.modulo (n / p) 10)) [1; 10; 100; 1000; 10000]%N.
+Fixpoint dsucc (l : list nat) : list nat :=
+  match l with
+  | [] => [1]
+  | d :: t => if Nat.eqb d 9 then 0 :: dsucc t else S d :: t
+  end.
+Definition dstring (stem : string) (l : list nat) : string :=
+  stem ++ fold_left (fun acc d => String (dchar d) acc) l EmptyString.
+Definition idx_key (stem : string) (i : nat) : string := dstring stem (digits5 i).
+(** the keys of [n] consecutive indices (one division, then decimal increments) *)
+Fixpoint idx_keys_from (stem : string) (l : list nat) (n : nat) : list string :=
+  match n with
+  | O => []
+  | S n' => dstring stem l :: idx_keys_from stem (dsucc l) n'
+  end.
+Definition idx_run (stem : string) (from n : nat) (v : string) : content :=
+  map (fun k => (k, v)) (idx_keys_from stem (digits5 from) n).
+
+(** compact contents: literal pairs and index ranges with one value *)
+Inductive citem :=
+| CP (k v : string)
+| CR (stem : string) (from n : nat) (v : string).
+
+Definition expand_item (c : citem) : content :=
+  match c with
+  | CP k v => [(k, v)]
+  | CR stem from n v => idx_run stem from n v
+  end.
+Definition expand (l : list citem) : content := flat_map expand_item l.
+
+(** all puts of one sorted run at once: merge (the run wins on equal keys) *)
+Fixpoint kv_merge (r st : content) : content :=
+  match r with
+  | [] => st
+  | (k, v) :: r' =>
+      (fix go (st : content) : content :=
+         match st with
+         | [] => (k, v) :: r'
+         | (k', v') :: t =>
+             match String.compare k k' with
+             | Lt => (k, v) :: kv_merge r' st
+             | Eq => (k, v) :: kv_merge r' t
+             | Gt => (k', v') :: go t
+             end
+         end) st
+  end.
+
 Inductive op :=
+| OFill (stem : string) (from n : nat) (v : string)   (* one transaction: put stem++pad5 i := v, from <= i < from+n *)
 | OPut (k v : string)
 | ODel (k : string)
 | OTxn (kvs : list (string * option string))   (* PutAndDelete: one atomic transaction, distinct keys *)
@@ -144,6 +202,7 @@ Inductive op :=
 
 Definition apply_op (st : content) (o : op) : content :=
   match o with
+  | OFill stem from n v => kv_merge (idx_run stem from n v) st
   | OPut k v => kv_put k v st
   | ODel k => kv_del k st
   | OTxn kvs => fold_left (fun s '(k, ov) => match ov with Some v => kv_put k v s | None => kv_del k s end) kvs st
@@ -199,6 +258,28 @@ Fixpoint check_from (fin : bool) (cur : content) (rest : list content) (d : cont
 
 Definition check_trace (fin : bool) (s0 : content) (ws : list content) (obs : list content) : bool :=
   check_from fin s0 ws [] obs.
+
+(** the same checker with a linear-time comparison for contents that list the same keys in the
+    same order (proved equal to [check_trace] for contents with unique keys:
+    C19_fast_checker_equiv); only the evaluation of big-prefix cases needs it *)
+Definition fast_equal (d1 d2 : content) : bool :=
+  if negb (Nat.eqb (List.length d1) (List.length d2)) then false   (* (vm_compute is strict: decide this first) *)
+  else if list_eqb String.eqb (map fst d1) (map fst d2) then content_eqb d1 d2
+  else is_data_equal d1 d2.
+
+Fixpoint check_from_fast (fin : bool) (cur : content) (rest : list content) (d : content) (obs : list content) : bool :=
+  match obs with
+  | [] => if fin then fast_equal d (last rest cur) else true
+  | x :: obs' =>
+      negb (fast_equal d x) &&
+      match find_state x cur rest with
+      | None => false
+      | Some (c', r') => check_from_fast fin c' r' x obs'
+      end
+  end.
+
+Definition check_trace_fast (fin : bool) (s0 : content) (ws : list content) (obs : list content) : bool :=
+  check_from_fast fin s0 ws [] obs.
 
 (** ** a schedule that explains an observed trace (used by the correspondence:
     the model is run on it and must reproduce the observed messages) *)
